@@ -23,17 +23,21 @@ impl File {
     // fs4::FileExt::lock_exclusive(&self): blocks until the advisory lock is held
     #[verifier::external_body]
     pub fn lock_exclusive(&self) -> (r: core::result::Result<(), std::io::Error>)
+        ensures r is Ok ==> self.lock_held(), r is Err ==> self.lock_refused(),
     { unimplemented!() }
 }
 // db.rs `open_file(path, create, direct_write)`: opens (create => create_new) read+write; nothing is written
 #[verifier::external_body]
 fn open_file(path: &Path, create: bool, direct_write: bool) -> (r: Result<File>)
     ensures r matches Ok(f) ==> f.trace() == Seq::<IoEv>::empty() && f.pos() == 0,
+
 { unimplemented!() }
 // db.rs `mmap(file, populate)`: maps the whole file read-only; the map covers every allocated byte
 #[verifier::external_body]
 fn mmap(file: &File, populate: bool) -> (r: Result<Mmap>)
     ensures r matches Ok(m) ==> map_of(*file, m) && forall|n: u64| file.allocated_at_least(n) ==> m@.len() >= n,
+        r is Err ==> file.map_refused(),
+
 { unimplemented!() }
 // page_size::get()
 #[verifier::external_body]
